@@ -259,6 +259,39 @@ def run():
                 chk.traces += 1
     chk.extra["big_polytomy_roundtrips"] = big_poly
     chk.extra["big_polytomy_skipped_as_too_slow"] = big_skipped
+    # medium trees (8-12 leaves) with polytomies whose children repeat shapes (cherry, cherry, ...): T -> rank -> unrank -> T
+    med_ok = 0
+    for _ in range(60 if QUICK else 3000):
+        n = rng.randint(8, 12)
+        labels = list(range(n))
+        rng.shuffle(labels)
+        parts, i = [], 0
+        while i < n:
+            sz = rng.choice([1, 2, 2, 3, 3, 4])
+            parts.append(labels[i:i + sz])
+            i += sz
+        if len(parts) < 2:
+            continue
+        nested = tuple(structured(g, rng, rng.choice(["cat", "bal", "star"])) for g in parts)
+        t = nested_tree(nested, n)
+        r = t.rank()
+        try:
+            t2 = tskit.Tree.unrank(n, r)
+            ok = t2.rank() == r and clades_of(t2) == clades_of(t)
+        except ValueError:
+            ok = False
+        chk.note_case(dict(medium_poly=[n, repr(nested)]), True)
+        if not ok:
+            chk.violation("rank/unrank round trip fails for a %d-leaf tree with a polytomy over repeated shapes, rank=%s" % (n, r),
+                          dict(n=n, nested=repr(nested), rank=[str(x) for x in r]))
+        else:
+            med_ok += 1
+            chk.traces += 1
+    chk.extra["medium_polytomy_roundtrips"] = med_ok
+    # n = 7 (39,208 topologies): too many for Topologies(n) in TLC, but the enumeration order of all_trees is still checked rank by rank
+    rows7 = [[int(t.rank().shape), int(t.rank().label)] for t in tskit.all_trees(7)]
+    cases.append(dict(kind="order", n=7, rows=rows7))
+    chk.extra["order_only_table"] = dict(n=7, topologies=len(rows7))
     # generated trees and random binary resolutions of polytomies, as clade sets
     ngen = 0
     for n in range(2, 9 if QUICK else 12):
@@ -296,13 +329,15 @@ def run():
             chk.note_case(dict(table=c["n"]), c["n"] >= 3)
         elif c["kind"] == "gen":
             chk.note_case(dict(gen=[c["gen"], c["n"], c["arity"], c["clades"]]), c["n"] >= 3)
+        elif c["kind"] == "order":
+            chk.note_case(dict(order=c["n"]), True)
         else:
             chk.note_case(dict(p=c["parent"], s=c["sets"]), len(c["counts"]) >= 2)
         f = verdicts[c["id"]]
         if f:
             chk.violation("trace rejected by Trace_Ranks (%s): %s %s" % (c["kind"] + (" n=%d" % c["n"] if c["kind"] == "table" else ""), sorted(f),
                                                                           st["eval_errors"].get(c["id"], "")[-300:]),
-                          c if c["kind"] in ("count", "gen") else dict(n=c["n"], oob=c["oob"], perturbed=c["perturbed"]))
+                          c if c["kind"] in ("count", "gen") else dict(n=c["n"]) if c["kind"] == "order" else dict(n=c["n"], oob=c["oob"], perturbed=c["perturbed"]))
         else:
             chk.traces += 1
     chk.extra.update(rank_tables=[dict(n=c["n"], topologies=len(c["rows"])) for c in cases[:ntab]], count_cases=sum(1 for c in cases if c["kind"] == "count"),
